@@ -14,12 +14,14 @@ from pyvc.tensor import STensor, sigma_term, F_SQRT, dim_z3
 from contracts import dagsym as D
 
 n = D.n
+# the six standard graphs and the joint (longitudinal + event) graph; the mixture model has its own rules (units below)
+KINDS4 = dict(D.KINDS, joint=D.EXTRA_KINDS["joint"])
 
 
 def model_parameters():
     from leaspy.variables.specs import ModelParameter
     out = []
-    for label, (kind, kw) in D.KINDS.items():
+    for label, (kind, kw) in KINDS4.items():
         m, specs = D.model_specs(kind, **kw)
         for name in specs:
             if isinstance(specs[name], ModelParameter):
@@ -206,11 +208,11 @@ class UpdateParameters(Spec):
     target = "leaspy.models.mcmc_saem_compatible:McmcSaemCompatibleModel.update_parameters"
 
     def configs(self):
-        return [dict(kind=k_, burn_in=b) for k_ in D.KINDS for b in (True, False)]
+        return [dict(kind=k_, burn_in=b) for k_ in KINDS4 for b in (True, False)]
 
     def setup(self, cx, cfg):
         from leaspy.variables.specs import ModelParameter
-        kind, kw = D.KINDS[cfg["kind"]]
+        kind, kw = KINDS4[cfg["kind"]]
         m, specs = D.model_specs(kind, **kw)
         mps = {k_: specs[k_] for k_ in specs if isinstance(specs[k_], ModelParameter)}
         dag = SymObj(object, dict(sorted_variables_by_type={ModelParameter: mps}))
